@@ -191,6 +191,18 @@ pub(crate) struct Context {
     gray_again: Queue<GcPtr>,
 }
 
+/// Returns a block to the allocator when dropped, whether the scope is left normally or by a
+/// panicking destructor of the value in the block.
+struct FreeOnDrop<'a>(GcPtr, &'a Metrics);
+
+impl<'a> Drop for FreeOnDrop<'a> {
+    fn drop(&mut self) {
+        // SAFETY: whoever creates the guard owns the (unlinked) block.
+        unsafe { self.0.dealloc() }
+        self.1.mark_gc_freed(1);
+    }
+}
+
 impl Drop for Context {
     fn drop(&mut self) {
         struct DropAll<'a>(&'a Metrics, Option<GcPtr>);
@@ -204,12 +216,13 @@ impl Drop for Context {
                         drop_resume.1 = header.next();
                         // SAFETY: the context owns its GC'd objects
                         unsafe {
+                            // The block is returned by a guard, so that it is returned as well
+                            // when the value's destructor unwinds.
+                            let _free = FreeOnDrop(gc_ptr, self.0);
                             if header.is_live() {
                                 gc_ptr.drop_in_place();
                                 self.0.mark_gc_dropped(1);
                             }
-                            gc_ptr.dealloc();
-                            self.0.mark_gc_freed(1);
                         }
                     }
                 }
@@ -647,14 +660,15 @@ impl Context {
                 // meaning it cannot have either strong or weak pointers, so we can drop the whole
                 // object.
                 unsafe {
+                    // The block is already unlinked: it must be returned even if the value's
+                    // destructor unwinds, nothing else will ever reach it.
+                    let _free = FreeOnDrop(sweep, &self.metrics);
                     if sweep_header.is_live() {
                         // If the is_live flag is set, that means we haven't dropped the inner value
                         // of this object,
                         sweep.drop_in_place();
                         self.metrics.mark_gc_dropped(1);
                     }
-                    sweep.dealloc();
-                    self.metrics.mark_gc_freed(1);
                 }
             }
             // Keep the `GcPtr` as part of the linked list if we traced a weak pointer to it. The
